@@ -389,6 +389,9 @@ impl Sim {
 
 static SIM: Mutex<Option<Sim>> = Mutex::new(None);
 
+/// Heartbeat for the CPU watchdog: bumped once per executed operation.
+pub static HEARTBEAT: std::sync::atomic::AtomicU64 = std::sync::atomic::AtomicU64::new(0);
+
 pub struct SimGuard(MutexGuard<'static, Option<Sim>>);
 impl std::ops::Deref for SimGuard {
     type Target = Sim;
